@@ -39,7 +39,7 @@ Definition stpost (own : ptr) (key : Z) (o : fp_out) (lv : lview2) : Prop :=
   end.
 
 Section WithNodes.
-Variable nodes : list (nat * nat).
+Variable nodes : cfg0.
 Local Notation SAFEm := (SAFEm nodes).
 
 Ltac nxl := intros g0; cbn; repeat split; eauto.
